@@ -469,16 +469,42 @@ def oracle_triangle(ctx, cfg, bank, verts, r, viol):
             viol(small(cfg, filt=i), 1.0, doc(l, c, rr, c), "documented gain at the centre is 1", tags=dict(clause="peak", kind=kind))
 
 
+def doc_span_hz(cfg, eL, eR, eps=5e-4):
+    """width (Hz) of the region where the *documented* response of the filter between band edges eL, eR
+    exceeds EFFECTIVE_SUPPORT_THRESHOLD - decides the property's "support spans less than half the
+    sampling rate" independently of the implementation's own supports_hz."""
+    rate = cfg["rate"]
+    dw = 2 * math.pi * (eR - eL) / rate
+    if cfg["kind"] == "gabor":
+        bc = math.sqrt(math.pi) / 2 if cfg["erb"] else math.sqrt(0.3 * math.log(10))
+        sigma = bc / (dw / 2)
+        peak = math.sqrt(2 * sigma * math.sqrt(math.pi)) if cfg["l2"] else 1.0
+        half = math.sqrt(2 * math.log(peak / eps)) / sigma if peak > eps else 0.0
+    else:
+        n = cfg["order"]
+        if cfg["erb"]:
+            K = 2.0 ** (2 * n - 2) * math.factorial(n - 1) ** 2 / (math.pi * math.factorial(2 * n - 2))
+        else:
+            K = 1.0 / (2 * math.sqrt(2 ** (1.0 / n) - 1))
+        alpha = K * dw
+        peak = 1.0
+        if cfg["l2"]:
+            peak = math.sqrt((2 * alpha) ** (2 * n - 1) / math.factorial(2 * n - 2)) * math.factorial(n - 1) / alpha ** n
+        half = alpha * math.sqrt((peak / eps) ** (2.0 / n) - 1) if peak > eps else 0.0
+    return 2 * half * rate / (2 * math.pi)
+
+
 def oracle_gain(ctx, cfg, bank, edges, cs, sup, r, viol):
     kind, rate, n = cfg["kind"], cfg["rate"], cfg["num_filts"]
     l2, erb = cfg["l2"], cfg["erb"]
     filts = sorted({0, n - 1, r.randrange(n), r.randrange(n)})
     for i in filts:
         eL, eR, c = edges[i], edges[i + 1], cs[i]
-        span = sup[i][1] - sup[i][0]
-        if not span < rate / 2:
+        if not doc_span_hz(cfg, eL, eR) < rate / 2:
             ctx.count("out_of_scope_wide_filter")
             continue
+        if not (sup[i][1] - sup[i][0]) < rate / 2:
+            ctx.count("supports_hz_wider_than_documented_support")
         W = 256
         while rate / W > (eR - eL) / 16 and W < 8192:
             W *= 2
